@@ -152,12 +152,16 @@ def decode(req):
         else: out.append(t)
     return out
 
-CLASS = {"cr": "source-cr-dropped", "trim": "source-midline-trim", "pop": "source-midline-pop"}
+CLASS = {"cr": "source-cr-dropped", "trim": "source-midline-trim", "pop": "source-midline-pop",
+         "stale": "source-append-src-stale-indent"}
 WHAT = {
     "source-cr-dropped": "Source drops a CR in front of LF (content not preserved)",
     "source-midline-trim": "Source drops leading whitespace of a multi-line fragment appended mid-line",
     "source-midline-pop": "Source drops two spaces in front of a closing brace appended mid-line",
-    "source-content-other": "Source lost or changed appended text in a way not covered by the three known classes",
+    "source-append-src-stale-indent": "after append_src of a buffer that ends mid-line onto a buffer at a line start the next push writes indentation into the middle of the line",
+    "source-split-line-brace": "indentation follows braces at the ends/starts of fragment pieces, not of buffer lines, when a line is assembled from several fragments",
+    "source-buffer-line-level": "indentation level differs from the nesting of braces at the ends/starts of the buffer's lines although no line was assembled from several fragments",
+    "source-content-other": "Source lost or changed appended text in a way not covered by the known classes",
     "source-level": "indentation level differs from (explicit indents + opening - closing fragment lines outside line comments)",
     "source-line-indent": "a line begun at nesting level L is not indented by 2*L spaces (one level less for a closing line)",
     "source-literal": "push_str_literal changed the indentation level",
@@ -297,6 +301,7 @@ def run(c):
             if "L" in flags: stats["level_checked_ops"] += 1
             else: all_l = False
             if "B" in flags: stats["balanced_checked_ops"] += 1
+            if "W" in flags: stats["buffer_line_checked_ops"] = stats.get("buffer_line_checked_ops", 0) + 1
             if k < len(obs) and obs[k] == "P": stats["panics"] += 1
             elif k < len(obs): stats["max_indent"] = max(stats["max_indent"], int(obs[k].split(":")[0]))
             stats["verdicts"][status] = stats["verdicts"].get(status, 0) + 1
@@ -308,6 +313,8 @@ def run(c):
                     else:
                         for kk in kinds.split("+"): viol(CLASS[kk], reqs[i], eff_req, eff_ans, k, v)
                         c.nontrivial.add("loss:" + eff_req)
+                elif f == "bufline:split": viol("source-split-line-brace", reqs[i], eff_req, eff_ans, k, v)
+                elif f == "bufline:other": viol("source-buffer-line-level", reqs[i], eff_req, eff_ans, k, v)
                 else:
                     viol({"level": "source-level", "lineindent": "source-line-indent", "literal": "source-literal",
                           "balanced": "source-balanced", "api": "source-api"}[f], reqs[i], eff_req, eff_ans, k, v)
@@ -355,16 +362,19 @@ def run(c):
     for j in range(min(3, len(keep))):
         c.sample({"history": decode(mreqs[j].split("\t")[0]), "impl": mreqs[j].split("\t")[1][:400],
                   "verdicts": mout[j].split("\t")[1] if "\t" in mout[j] else mout[j]})
-    c.cov["search"] = ("SourceSpec.monitor (content / level / line-indent / literal / balanced / api monitors, Lean, spec side) "
+    c.cov["search"] = ("SourceSpec.monitorAll (content / level / line-indent / whole-buffer-line level / literal / balanced / api monitors, Lean, spec side) "
                        "evaluated on the implementation's observed buffer and probed level after every top-level operation, "
                        "plus the metamorphic literal monitor SourceSpec.literalPairOk on pairs of implementation runs")
     c.assumptions += [
         "usize indentation modelled as Nat (no wrap of += after 2^64)",
         "Source::as_mut_string (raw mutable access to the buffer) is outside the model and the property",
-        "the unit of brace interpretation is a fragment line (piece), as in the code; lines assembled from several fragments are "
-        "interpreted piece by piece (a `{` ending a piece opens even if more text follows on the same output line)",
-        "nesting-level claims (2) are made for histories without a closing line at level 0 (saturating_sub path) and with "
-        "append_src used on line boundaries (append_src does not take over continuing_line); outside that domain only the "
-        "exact model/implementation correspondence is checked",
+        "claim (2) is judged in both readings: per fragment piece (what the code does; proved) and over the lines of the buffer "
+        "(the property's literal wording; false when a line is assembled from several fragments: known finding "
+        "source-split-line-brace, any other disagreement is a violation)",
+        "nesting-level claims (2) are made for histories without a closing line at level 0 (saturating_sub path: nesting undefined); "
+        "after an append_src off a line boundary (append_src does not take over continuing_line / takes over in_line_comment) the "
+        "content, literal and deindent/set_indent monitors keep judging every operation (known finding "
+        "source-append-src-stale-indent for the indentation it then writes mid-line), the nesting monitors stop because the appended "
+        "buffer's comment and line state cannot be observed; the exact model/implementation correspondence continues",
         "Rust str primitives are modelled in RustStr.lean and validated against std in the separate glue correspondence",
     ]
